@@ -4,7 +4,7 @@ From RW Require Import Base.Bytes Base.BytesFacts Fmt.Codec Fmt.CodecFacts Fmt.F
   Wal.CrashInv Wal.CrashFacts0 Wal.CrashFacts1 Wal.CrashFacts2 Wal.CrashFacts3 Wal.CrashFacts4 Wal.CrashFacts5
   Wal.CrashFacts6 Wal.CrashGlue Wal.CrashCalls1 Wal.CrashCalls2 Wal.CrashCalls3 Wal.CrashCalls4 Wal.CrashCalls5 Wal.CrashCalls6
   Wal.CrashCalls7 Wal.CrashCalls8 Wal.CrashCalls9 Wal.CrashCalls10 Wal.FaultSim Wal.FaultSim2 Wal.FaultInv Wal.FaultFacts2
-  Wal.FaultFacts3 Wal.FaultStore Wal.FaultDelete Gen.Constants.
+  Wal.FaultFacts3 Wal.FaultNames Wal.FaultStore Wal.FaultDelete Gen.Constants.
 From Coq Require Import ZifyN ZifyNat ZifyBool.
 Open Scope N_scope.
 
@@ -33,21 +33,27 @@ Proof.
   { destruct (0 <? df_seal f0) eqn:Z; [inversion Hrot; split; [lia|reflexivity]|discriminate]. }
   destruct Hse as (Hse & ->).
   pose proof (lv_tw _ _ _ _ _ _ _ _ V) as (Tn & _ & _ & _ & _ & _ & Ti & _).
-  (* a sealed tail carries no stale batch *)
-  assert (HN : no_pend (e_disk e)).
-  { destruct Hstale as [H|(t2 & f & p & Ht2 & Hf & Hp & _ & (Hz & _))]; [exact H|exfalso].
+  (* a sealed tail carries no stale batch: every pending batch sits in an unlisted file *)
+  assert (HSU : stale_unlisted (e_disk e)).
+  { intros n f p Hl Hp. destruct (Hstale n f p Hl Hp) as [(t2 & Ht2 & -> & (Hz & _))|K]; [exfalso|exact K].
     assert (t2 = t) by (rewrite (lv_segs _ _ _ _ _ _ _ _ V), tail_info_app in Ht2; inversion Ht2; reflexivity). subst t2.
-    pose proof (lv_file _ _ _ _ _ _ _ _ V) as K. unfold sh in K. rewrite lookup_map_files, Hf in K. cbn in K. inversion K; subst f0. cbn in Hse. lia. }
-  set (d := e_disk e) in *. set (ec := shenv e).
-  assert (HR : R None e ec).
-  { split; [apply drel_sh; [apply (LInv_NoDup_sh _ _ _ _ HL)|apply stale_ok_nopend; exact HN]|reflexivity]. }
+    pose proof (lv_file _ _ _ _ _ _ _ _ V) as K. unfold sh in K. rewrite lookup_map_files, Hl in K. cbn in K. inversion K; subst f0. cbn in Hse. lia. }
+  destruct (live_shadow c nb w e defer HLive) as (HR & _ & Hex & _).
+  set (X := stale_names (e_disk e)) in *. set (d := e_disk e) in *. set (ec := shenv e) in *.
+  assert (HXu : forall n, In n X -> unlisted d n).
+  { intros n Hx. destruct (stale_names_in _ n (LInv_NoDup_sh _ _ _ _ HL) Hx) as (f & p & Hl & Hp). apply (HSU n f p Hl Hp). }
   destruct (rotate_ok c nb w ec (df_seal f0) Hc HL eq_refl Hnb Er) as (wc' & ec' & Hrc & HL' & Hr' & Hsp' & Hext).
   destruct (rotate c w e) as [w' e'] eqn:Erot. exists w', e'. split; [reflexivity|].
-  change (e_disk ec) with (sh d) in Hsp'. rewrite Hsp in Hsp'.
-  destruct (rotate_lock None c w e ec w' e' wc' ec' HR Erot Hrc) as [(-> & HR')|(Hf' & _ & _ & [(-> & Hd)|(-> & ps & Hrel & Hpfx)])].
+  destruct (rotate_sub _ _ _ _ _ Erot) as (_ & Hms).
+  assert (Hgarb : forall n, In n X -> unlisted (e_disk e') n).
+  { intros n Hx. apply (unlisted_keep c nb w d (e_disk e') n HL (Hex n Hx) (HXu n Hx) Hms). }
+  change (e_disk ec) with (sh d) in Hsp', Hext. rewrite Hsp in Hsp', Hext.
+  destruct (rotate_lock X c w e ec w' e' wc' ec' HR Erot Hrc) as [(-> & HR')|(Hf' & _ & _ & [(-> & Hd)|(-> & ps & Hpc)])].
   - split; [apply (LInv_closed _ _ _ _ HL')|]. left.
-    destruct (clean_after c (nb + 1) wc' e' ec' HL' HR') as (HLs & HNs & Hsps). rewrite Hsp' in Hsps.
-    split; [apply live_clean; assumption|]. split; [exact Hr'|]. split; [exact Hsps|].
+    destruct (Rd_live c (nb + 1) _ wc' e' ec ec' X [] defer Hext HL' (Rd_of_R _ _ _ _ HR')) as (HLv & Hsps).
+    { intros n f p Hx _ _ _. right. apply Hgarb. exact Hx. }
+    rewrite Hsp' in Hsps.
+    split; [exact HLv|]. split; [exact Hr'|]. split; [exact Hsps|].
     intros Hfe. (* without an armed fault the rotation cannot fail *)
     unfold rotate in Erot. rewrite Er, Hcl in Erot.
     destruct (tail_info (st_segs w)); [|inversion Erot; subst; exact Hfe].
@@ -58,20 +64,21 @@ Proof.
   - (* the commit failed: the tail stays sealed, no rotation pending *)
     split; [exact Hcl|]. right. split; [exact Hf'|]. split; [reflexivity|]. rewrite Hd. split.
     + left. split; [|exact Hsp]. exists tw. split; [apply (lv_tail _ _ _ _ _ _ _ _ V)|]. split; [lia|]. split; [reflexivity|].
-      split; [|exact HN]. rewrite Ti. 
+      split; [|exact HSU]. rewrite Ti.
       replace (set_rot (rot_none w) (Some (df_seal f0))) with w; [eapply LInv_mono; [|exact HL]; lia|].
       rewrite <- (set_rot_id w) at 1. rewrite Er. reflexivity.
-    + assert (HRD0 : RD c nb d alts defer) by (apply (RD_of_clean c nb w d alts defer HL HN); rewrite Hsp; exact Hin).
+    + assert (HRD0 : RD c nb d alts defer) by (apply (live_RD c nb w d alts defer HLive); rewrite Hsp; exact Hin).
       eapply RD_mono; [| | |exact HRD0]; [lia|apply incl_refl|apply incl_refl].
   - (* committed, but the new tail could not be created *)
     split; [exact Hcl|]. right. split; [exact Hf'|]. split; [reflexivity|].
-    destruct (ext_pfx _ _ _ _ Hext Hpfx) as (HDm & HAm & _).
-    destruct (fail_after_commit c nb (nb + 1) (set_failed (rot_none w)) w (sh d) (e_disk e') None nom alts defer ps ltac:(lia) HL Hsp eq_refl eq_refl eq_refl eq_refl Hcl Hrel)
+    assert (Hmd' : dk_meta (e_disk e') = Some ps).
+    { destruct Hpc as (dm & (_ & M & _) & _ & Hm & _). rewrite M. exact Hm. }
+    destruct (fail_after_commit c nb (nb + 1) (set_failed (rot_none w)) w (sh d) (e_disk e') X nom alts defer ps ec ec' ltac:(lia) HL eq_refl Hsp eq_refl eq_refl eq_refl eq_refl Hcl Hpc)
       as (HM & HRD).
-    + intros n K; discriminate.
-    + exact HDm.
-    + apply cand_alts. change (e_disk ec) with (sh d) in HAm. rewrite <- HAm, Hsp. exact Hin.
-    + intros n ps' s K; discriminate.
+    + intros dm Hp. destruct (ext_pfx _ _ _ _ Hext Hp) as (HDm & HAm & _). split; [exact HDm|].
+      apply cand_alts. rewrite <- HAm. exact Hin.
+    + intros n Hx. right. intros s Hs. apply (HXu n Hx (persistent w) s (live_meta c nb w d HL) Hs).
+    + intros n s Hx Hs. apply (Hgarb n Hx ps s Hmd' Hs).
     + split; [|exact HRD]. right. split; [reflexivity|].
       destruct HM as [(K & _)|(_ & [(K & _)|[(K & _)|(_ & _ & K)]])]; [cbn in K; congruence| | |exact K].
       * destruct K as ((_ & K & _) & _). cbn in K. discriminate.
@@ -141,26 +148,29 @@ Proof. reflexivity. Qed.
 Lemma LInv_setstable c nb w d k v : LInv c nb w d -> LInv c nb w (apply_act d (ASetStable k v)).
 Proof. apply LInv_same; reflexivity. Qed.
 
-Lemma stale_tail_ok_files c w d d' defer : dk_files d' = dk_files d -> stale_tail_ok c w d defer -> stale_tail_ok c w d' defer.
+Lemma stale_tail_ok_files c w d d' defer : dk_files d' = dk_files d -> dk_meta d' = dk_meta d ->
+  stale_tail_ok c w d defer -> stale_tail_ok c w d' defer.
 Proof.
-  intros Hf [H|(t & f & p & A & B & C & D & E)]; [left; eapply no_pend_same; eauto|right].
-  exists t, f, p. rewrite Hf. split; [exact A|]. split; [exact B|]. split; [exact C|]. split; [|exact E].
-  intros n g. rewrite Hf. apply D.
+  intros Hf Hm H n f p Hl Hp. rewrite Hf in Hl. destruct (H n f p Hl Hp) as [K|K]; [left; exact K|right].
+  eapply unlisted_meta; [exact Hm|exact K].
 Qed.
+
+Lemma stale_unlisted_files d d' : dk_files d' = dk_files d -> dk_meta d' = dk_meta d -> stale_unlisted d -> stale_unlisted d'.
+Proof. intros Hf Hm H n f p Hl Hp. rewrite Hf in Hl. eapply unlisted_meta; [exact Hm|]. apply (H n f p Hl Hp). Qed.
 
 Lemma Mode_setstable c nb w d nom defer k v :
   Mode c nb w d nom defer -> Mode c nb w (apply_act d (ASetStable k v)) (if st_closed w then nom else set_kv k v nom) defer.
 Proof.
   intros [(Hcl & Hr)|(Hcl & HM)]; rewrite Hcl; [left; auto|right]. split; [exact Hcl|].
-  destruct HM as [((HL & Hst) & Hsp)|[((tw & A & B & C & HL & HN) & Hsp)|(Hf & Hr & (wc & dc & o & HL & Hsp & Hs & Ht & Hfl & Hstb & ND & Hso & Hot))]].
-  - left. split; [split; [rewrite sh_setstable; apply LInv_setstable; exact HL|eapply stale_tail_ok_files; [|exact Hst]; reflexivity]|].
+  destruct HM as [((HL & Hst) & Hsp)|[((tw & A & B & C & HL & HN) & Hsp)|(Hf & Hr & (wc & dc & HL & Hsp & Hs & Ht & Hlk & Hstb & ND & Hlast))]].
+  - left. split; [split; [rewrite sh_setstable; apply LInv_setstable; exact HL|eapply stale_tail_ok_files; [| |exact Hst]; reflexivity]|].
     rewrite sh_setstable, sp_of_set, Hsp. reflexivity.
-  - right. left. split; [exists tw; split; [exact A|]; split; [exact B|]; split; [exact C|]; split; [rewrite sh_setstable; apply LInv_setstable; exact HL|eapply no_pend_same; [|exact HN]; reflexivity]|].
+  - right. left. split; [exists tw; split; [exact A|]; split; [exact B|]; split; [exact C|]; split; [rewrite sh_setstable; apply LInv_setstable; exact HL|eapply stale_unlisted_files; [| |exact HN]; reflexivity]|].
     rewrite sh_setstable, sp_of_set, Hsp. reflexivity.
   - right. right. split; [exact Hf|]. split; [exact Hr|].
-    exists wc, (apply_act dc (ASetStable k v)), o. split; [apply LInv_setstable; exact HL|]. split; [rewrite sp_of_set, Hsp; reflexivity|].
-    split; [exact Hs|]. split; [exact Ht|]. split; [exact Hfl|]. split; [cbn [apply_act dk_stable]; rewrite Hstb; reflexivity|].
-    split; [exact ND|]. split; [exact Hso|exact Hot].
+    exists wc, (apply_act dc (ASetStable k v)). split; [apply LInv_setstable; exact HL|]. split; [rewrite sp_of_set, Hsp; reflexivity|].
+    split; [exact Hs|]. split; [exact Ht|]. split; [exact Hlk|]. split; [cbn [apply_act dk_stable]; rewrite Hstb; reflexivity|].
+    split; [exact ND|exact Hlast].
 Qed.
 
 Lemma store_set_commute a ls x k v : spec_accepts a (OStore ls) = Some x -> spec_accepts (set_kv k v a) (OStore ls) = Some (set_kv k v x).
@@ -190,7 +200,7 @@ Lemma set_step c nb w e nom alts defer k v nl :
 Proof.
   intros Hcl HM HRD Hin Hdef. unfold set_stable. rewrite Hcl.
   destruct (key_ok k) eqn:Hk; cbn [negb].
-  - destruct (io_cases (ASetStable k v) (inc_stable e true)) as [(e1 & E & D & _)|(_ & e1 & E & D & _)]; rewrite E.
+  - destruct (io_cases (ASetStable k v) (inc_stable e true) eq_refl) as [(e1 & E & D & _)|(e1 & E & D & _)]; rewrite E.
     + exists ROk, e1. split; [reflexivity|]. left. split; [reflexivity|]. exists (set_kv k v nom).
       split; [unfold spec_accepts; cbn [step_spec]; rewrite Hk; reflexivity|]. rewrite D. change (e_disk (inc_stable e true)) with (e_disk e).
       split; [|apply RD_setstable; assumption].
@@ -211,5 +221,12 @@ Proof.
 Qed.
 
 Lemma RD_seal c nb w d alts defer : Seal c nb w d -> In (sp_of (sh d)) alts -> RD c nb d alts defer.
-Proof. intros (tw & A & B & C & HL & HN) Hin. eapply RD_of_clean; eauto. Qed.
-
+Proof.
+  intros (tw & A & B & C & HL & HN) Hin. pose proof (LInv_NoDup_sh _ _ _ _ HL) as ND.
+  apply (RD_rel c nb d (sh d) (stale_names d) alts defer).
+  - apply HL.
+  - apply no_pend_sh.
+  - apply drel_sh; [exact ND|apply stale_names_ok].
+  - intros n Hx. destruct (stale_names_in _ n ND Hx) as (f & p & Hl & Hp). apply (unlisted_meta d (sh d) n eq_refl). apply (HN n f p Hl Hp).
+  - apply cand_alts. exact Hin.
+Qed.
